@@ -55,6 +55,15 @@ pub fn build_pass_2(
             SegmentType::Data => {}
         }
 
+        #[cfg(feature = "verif")]
+        crate::verif::emit(format!(
+            "\"ev\":\"seg2\",\"t\":\"{}\",\"addr\":{},\"code_len\":{},\"eeprom_len\":{}",
+            segment.t,
+            segment.address,
+            code.len(),
+            eeprom.len()
+        ));
+
         let fragment = pass_2_internal(&segment, common_context)?;
 
         match segment.t {
@@ -86,6 +95,8 @@ fn pass_2_internal(segment: &Segment, common_context: &CommonContext) -> Result<
 
     for (line, item) in segment.items.iter() {
         common_context.set_special("pc".to_string(), Expr::Const(cur_address as i64));
+        #[cfg(feature = "verif")]
+        let (address_before, length_before) = (cur_address, code_fragment.len());
         match item {
             Item::Instruction(op, op_args) => {
                 let device = common_context.get_device();
@@ -165,6 +176,20 @@ fn pass_2_internal(segment: &Segment, common_context: &CommonContext) -> Result<
             }
             _ => {}
         }
+        #[cfg(feature = "verif")]
+        crate::verif::emit(format!(
+            "\"ev\":\"item2\",\"t\":\"{}\",\"line\":{},\"kind\":{},\"addr\":{},\"bytes\":\"{}\"",
+            segment.t,
+            line.line_num,
+            crate::verif::quote(&match item {
+                Item::Instruction(op, _) => format!("instr {:?}", op).to_lowercase(),
+                Item::Data(t, _) => format!("data {:?}", t).to_lowercase(),
+                Item::ReserveData(n) => format!("byte {}", n),
+                _ => "other".to_string(),
+            }),
+            address_before,
+            crate::verif::hex(&code_fragment[length_before..])
+        ));
     }
 
     Ok(code_fragment)
